@@ -89,7 +89,7 @@ fn decode(s: &mut Source) -> Case {
     Case { before, coll, body, after, fd }
 }
 
-/// Long collections (up to 400, thorough 2000 elements); bodies that stay (nearly)
+/// Long collections (up to 400, thorough 1000 elements); bodies that stay (nearly)
 /// deterministic so that the answer count does not explode.
 fn decode_long(s: &mut Source, thorough: bool) -> Case {
     use crate::gen::scale;
@@ -265,7 +265,7 @@ pub fn run_family_pub(bytes: &[u8], ctx: &Ctx) -> CaseInfo {
 pub fn def() -> PropertyDef {
     PropertyDef {
         id: "C12",
-        rule: "`for x in coll { body }` built through everyg with a move closure (what For::to_tokens expands to), collections of 0-4 terms (ground, partially ground, sharing the two query variables; passed as Vec<LTerm> for even and as an LTerm list for odd sizes), bodies of 1-3 goals over the loop variable, the query variables and a body-local fresh variable (tree profile: ==, !=, member, conde; FD profile: infdrange, ltefd, diseqfd, plusfd on the loop variable), optionally with a constraint before or after the loop. Oracle: multiset(for) = multiset(explicit conjunction of the body instantiated per element) = reference interpreter (tree profile); an empty collection succeeds exactly once. Non-trivial = |coll| >= 2; distinct = hash of the printed program. Family `long-collections`: the same oracle with collections of up to 400 (thorough 2000) elements and (nearly) deterministic bodies. The surface form of `for` (macro) is covered by the compile pipeline of C14",
+        rule: "`for x in coll { body }` built through everyg with a move closure (what For::to_tokens expands to), collections of 0-4 terms (ground, partially ground, sharing the two query variables; passed as Vec<LTerm> for even and as an LTerm list for odd sizes), bodies of 1-3 goals over the loop variable, the query variables and a body-local fresh variable (tree profile: ==, !=, member, conde; FD profile: infdrange, ltefd, diseqfd, plusfd on the loop variable), optionally with a constraint before or after the loop. Oracle: multiset(for) = multiset(explicit conjunction of the body instantiated per element) = reference interpreter (tree profile); an empty collection succeeds exactly once. Non-trivial = |coll| >= 2; distinct = hash of the printed program. Family `long-collections`: the same oracle with collections of up to 400 (thorough 1000) elements and (nearly) deterministic bodies. The surface form of `for` (macro) is covered by the compile pipeline of C14",
         assumptions: vec!["surface `for` bodies cannot capture outer logic variables (the generated closure is not `move`), so outer variables are exercised through the API"],
         families: vec![
             Family { name: "everyg", max_len: 96, quick: 120_000, thorough: 3_000_000, run: run_family },
